@@ -25,7 +25,7 @@ import numpy as np
 from .core import coq, Some, Raw
 
 PID = 'C12'
-FILES = ['lib/Cases.v', 'lib/Conn.v', 'C12_Model.v', 'C12_Proofs.v', 'C12_Properties.v']
+FILES = ['lib/Cases.v', 'lib/Conn.v', 'C12_Model.v', 'C12_Proofs.v', 'C12_ProofsB.v', 'C12_Properties.v']
 
 MSG_NOOVERLAP = 'no overlap with the'
 MSG_MASKED = 'is completely masked'
@@ -908,7 +908,12 @@ def run(ctx):
         'flux_init from aperture photometry and local_bkg from LocalBackground are library numerics: the model takes '
         'the values found in the result table',
         'user-supplied id column: only permutations of 1..N are generated (other id sets make join() drop rows and '
-        'the call raises ValueError: outside the property text, reported as an observation)',
+        'the call raises ValueError: outside the property text, reported as an observation); the un-grouping theorems '
+        'carry the same hypothesis (ids are a permutation of 1..N; the group ids are arbitrary)',
+        'theorems about the fit window assume fit_shape > 0 and image sides >= 0; single linkage is stated on squared '
+        'distances (dist^2 <= min_separation^2), i.e. for min_separation >= 0',
+        'the model mirrors the REPAIRED code (fixes/C12-1 _make_mask, C12-2 flag 16, C12-3 supplied group_id); the HEAD '
+        'texts are kept as make_mask_head / flag16_head / group_ids_head with *_refuted witnesses',
     ]
     ctx.cov['partial_clauses'] = [
         'exact recovery of x, y, flux on rendered scenes; residual image ~ 0; flux scaling by k; fixed parameters keep '
@@ -916,8 +921,8 @@ def run(ctx):
         '(astropy TRFLSQFitter) and on model rendering; tested on generated scenes (support_tests), and proved only '
         'in the pass-through form "*_partial" (hypotheses: the fitter returns the truth / leaves fixed parameters alone)',
     ]
-    n_script = 500 if quick else 5000
-    n_real = 36 if quick else 300
+    n_script = 900 if quick else 6000
+    n_real = 60 if quick else 400
     cases = [gen_script_case(ctx.rng) for _ in range(n_script)]
     cases += [gen_real_case(ctx.rng) for _ in range(n_real)]
     terms, kept, results = [], [], []
